@@ -97,7 +97,7 @@ func runC16(e *Env) {
 			return map[string]any{"controller": ct.Name, "implements": impl, "with_Uses": ct.WithUses, "base": base, "in_group": inGroup, "cache": cacheOn, "middleware_variant(0 none/1 group,1 +3 Resource mw,2 nested groups,3 both)": int(t.Idx/combos+t.Idx) % 4}
 		})
 		if t.Idx < 2 || t.Idx == 77 {
-			t.Sample(t.desc())
+			t.wantSample = true
 		}
 		t.NonTrivial(fmt.Sprint(ct.Name, base, inGroup))
 		opts := []func(*rux.Router){rux.HandleMethodNotAllowed}
@@ -194,6 +194,7 @@ func runC16(e *Env) {
 				want, _ := refResolve(tb, cfg, method, path)
 				rec, pv, panicked := Serve(router, NewReq(method, path))
 				t.Count("resource.probes", 1)
+				t.Tracef("%s %s -> status %d action %q body %q Allow %q events %v", method, path, rec.Status(), rec.Route, rec.Body.String(), rec.H.Get("Allow"), rec.Events)
 				if panicked {
 					t.Fail("servehttp-panics", "%s %s panicked: %v", method, path, pv)
 					return
